@@ -309,7 +309,7 @@ func cmdRun(args []string) int {
 
 	// C15, "across processes": the first scenarios are executed again in two
 	// further OS processes (GOMAXPROCS 1 and 16) and the complete outcomes compared
-	xprocN, xprocDiff := 0, 0
+	xprocN, xprocDiff, xprocViol := 0, 0, 0
 	if prop == "C15" && exit == 0 {
 		n := 3000
 		if *tier == "thorough" {
@@ -323,6 +323,11 @@ func cmdRun(args []string) int {
 			out := filepath.Join(ws.Dir, "xproc-"+mp+".json")
 			cmd := exec.Command(ws.Exec, "run", "--prop", prop, "--tier", *tier, "--seed", fmt.Sprint(seed), "--worker", "0", "--workers", "1",
 				"--count", fmt.Sprint(n), "--out", os.DevNull, "--hashes", out, "--replays", filepath.Join(ws.Dir, "xr"))
+			if i == 1 {
+				// the second process meets the scenarios in the opposite order: whatever a
+				// process keeps from one evaluation to the next differs between the two
+				cmd.Args = append(cmd.Args, "--reverse")
+			}
 			cmd.Env = append(os.Environ(), "GOMAXPROCS="+mp)
 			if o, err := cmd.CombinedOutput(); err != nil {
 				fmt.Fprintf(os.Stderr, "simcheck: cross-process leg trouble: %v %s\n", err, clipStr(string(o), 800))
@@ -357,9 +362,24 @@ func cmdRun(args []string) int {
 				fmt.Printf("VIOLATION property=C15 replay=%s\n", rp)
 				exit = 1
 				unlisted = append(unlisted, violationRec{Class: "c15:cross-process", Replay: rp, Seed: seed, Index: i})
+				xprocViol++
 				break
 			}
 			os.Remove(rp)
+			// alone, the scenario gives the same in two fresh processes: what it gives
+			// depends on what the process evaluated before it
+			xo := xorderFile{Kind: "xorder", Property: "C15", Class: "c15:depends-on-earlier-evaluations-in-the-process", Tier: *tier, Seed: seed, Count: n, Index: i}
+			if differs, d := runXorder(ws, xo); differs {
+				xp := filepath.Join(replayDir, fmt.Sprintf("C15-xorder-s%d-i%d.json", seed, i))
+				b, _ := json.MarshalIndent(xo, "", " ")
+				ioutil.WriteFile(xp, b, 0644)
+				fmt.Printf("violation class=%s seed=%d index=%d\n%s\n", xo.Class, seed, i, d)
+				fmt.Printf("VIOLATION property=C15 replay=%s\n", xp)
+				exit = 1
+				unlisted = append(unlisted, violationRec{Class: xo.Class, Replay: xp, Seed: seed, Index: i})
+				xprocViol++
+				break
+			}
 		}
 		merged.Stats["probe.cross-process-scenarios"] = xprocN
 		merged.Stats["probe.cross-process-hash-differences"] = xprocDiff
@@ -388,8 +408,12 @@ func cmdRun(args []string) int {
 			nontriv++
 		}
 	}
+	knownTotal := 0
+	for _, n := range knownHits {
+		knownTotal += n
+	}
 	fmt.Printf("simcheck: %s %s: %d scenarios, %d executions, %d distinct non-trivial signatures, %d violations (%d known), %.1fs; batch-hash=%016x\n",
-		prop, *tier, merged.Runs, merged.Evals, nontriv, len(merged.Violations), len(merged.Violations)-len(unlisted), wall, merged.TraceHash)
+		prop, *tier, merged.Runs, merged.Evals, nontriv, len(merged.Violations)+xprocViol, knownTotal, wall, merged.TraceHash)
 	if merged.Runs == 0 {
 		fmt.Fprintln(os.Stderr, "simcheck: no scenario was executed")
 		return 2
@@ -534,6 +558,44 @@ func obsTwice(ws *Workspace, path string) (bool, string) {
 	return false, "outputs differ in length"
 }
 
+// xorderFile: a replay file for a scenario whose outcome depends on which other
+// scenarios the process evaluated before it. Replaying runs scenarios 0..Count-1 of
+// the batch in two fresh processes, forwards and backwards, and compares scenario Index.
+type xorderFile struct {
+	Kind     string `json:"kind"`
+	Property string `json:"property"`
+	Class    string `json:"class"`
+	Tier     string `json:"tier"`
+	Seed     uint64 `json:"seed"`
+	Count    int    `json:"count"`
+	Index    int    `json:"index"`
+}
+
+func runXorder(ws *Workspace, f xorderFile) (bool, string) {
+	var hs [2]string
+	for i := 0; i < 2; i++ {
+		out := filepath.Join(ws.Dir, fmt.Sprintf("xorder-%d.json", i))
+		cmd := exec.Command(ws.Exec, "run", "--prop", f.Property, "--tier", f.Tier, "--seed", fmt.Sprint(f.Seed), "--worker", "0", "--workers", "1",
+			"--count", fmt.Sprint(f.Count), "--out", os.DevNull, "--hashes", out, "--replays", filepath.Join(ws.Dir, "xr"))
+		if i == 1 {
+			cmd.Args = append(cmd.Args, "--reverse")
+		}
+		if o, err := cmd.CombinedOutput(); err != nil {
+			return false, fmt.Sprintf("order replay trouble: %v %s", err, clipStr(string(o), 400))
+		}
+		var m map[string]string
+		b, err := ioutil.ReadFile(out)
+		if err != nil || json.Unmarshal(b, &m) != nil {
+			return false, "order replay wrote no hashes"
+		}
+		hs[i] = m[fmt.Sprint(f.Index)]
+	}
+	if hs[0] != hs[1] {
+		return true, fmt.Sprintf("scenario %d of the batch (seed %d) gives different results in two fresh processes that evaluate scenarios 0..%d forwards and backwards, although evaluated alone it gives the same in both: its outcome depends on what the process evaluated before (outcome hashes %s / %s)", f.Index, f.Seed, f.Count-1, hs[0], hs[1])
+	}
+	return false, ""
+}
+
 func cmdReplay(args []string) int {
 	if len(args) < 1 {
 		usage()
@@ -543,6 +605,25 @@ func cmdReplay(args []string) int {
 	if err != nil {
 		fmt.Fprintln(os.Stderr, "simcheck:", err)
 		return 2
+	}
+	if b, err := ioutil.ReadFile(args[0]); err == nil && strings.Contains(string(b), "\"kind\": \"xorder\"") {
+		var f xorderFile
+		if json.Unmarshal(b, &f) != nil {
+			fmt.Fprintln(os.Stderr, "simcheck: bad order replay file")
+			return 2
+		}
+		differs, d := runXorder(ws, f)
+		if differs {
+			fmt.Println(d)
+			fmt.Printf("VIOLATION property=%s replay=%s\n", f.Property, args[0])
+			return 1
+		}
+		if d != "" {
+			fmt.Fprintln(os.Stderr, "simcheck:", d)
+			return 2
+		}
+		fmt.Printf("REPLAY-OK property=%s recorded_class=%s (both orders agree on this tree)\n", f.Property, f.Class)
+		return 0
 	}
 	if b, err := ioutil.ReadFile(args[0]); err == nil && strings.Contains(string(b), "\"kind\": \"sequence\"") {
 		var f seqReplayFile
